@@ -183,7 +183,8 @@ theorem le_pow_nDigits (n : Nat) : n ≤ 10 ^ nDigits n := by
   simp only [Nat.pow_zero] at this
   omega
 
-/-- all displayed numbers have the same width whenever every displayed line number is below the
+/-- BEYOND THE PROPERTY (alignment is not claimed by C18; kept as a remark about the model):
+    all displayed numbers have the same width whenever every displayed line number is below the
     doctest's `endline = startline + Σ n_lines` (true when no text lies between the parts; see the
     witness below for what the code does otherwise) -/
 theorem same_width (parts : List Part) (lineno : Nat) (o : SrcOpts) (k : Nat)
@@ -306,7 +307,8 @@ theorem exParts_clean : ∀ p ∈ exParts, CleanPart p := by
       revert c hc
       decide +kernel
 
-/-- witness (finding K-C18-a): prose between two chunks is not counted in `n_lines`, so the digit
+/-- BEYOND THE PROPERTY (C18 speaks about the displayed NUMBERS, not about the width of their column; the
+    check's verdict does not depend on alignment): prose between two chunks is not counted in `n_lines`, so the digit
     count is too small for the later line numbers and the display is misaligned: `'2 '` vs `'104 '` -/
 def gapParts : List Part :=
   [{ execLines := ["a = 1".toList], origLines := some [">>> a = 1".toList], lineOffset := 0 },
